@@ -451,7 +451,11 @@ impl<C: ContentAddrStore> SealedState<C> {
     /// This is the "main" operation on a `SealedState` used to advance it to a `State` that can start accepting further transactions for the next block.
     pub fn next_unsealed(&self) -> UnsealedState<C> {
         let mut new = self.0.clone();
-        // fee variables
+        // fee variables: tips belong to the block they were paid in. They are not part of the header
+        // or of the block, so a state restored with `from_block` starts the next block without
+        // them; a state carried over in memory must do the same, or the two disagree about the
+        // next proposer reward.
+        new.tips = 0.into();
         new.history.insert(self.0.height, self.header());
         new.height += BlockHeight(1);
         new.stakes.unlock_old((new.height / STAKE_EPOCH).0);
